@@ -7,6 +7,22 @@ CLAIMED = {
    text="Deterministic simulation of the whole program against generated data directories: the (chain length T<=10) x option-shape x callback grid is enumerated completely (2.9k scenarios), high heights (VarInt width boundaries, up to 4M) and long chains are sampled under benign I/O perturbation. Marker blocks make every output row reveal its height, so 'exactly s..min(e,T), once, ascending' is read off the real outputs of all five callbacks.",
    note="Trusted: the world builder (rusty-leveldb writes the index the program reads), the marker scheme, tmpfs. Sampling outside the small grid.",
    tech="deterministic simulation: seeded world generation + whole-program runs under a planned I/O seam, exhaustive small grid + seeded sampling, oracle = marker heights vs range model"),
+ "C01": dict(cat="exploration", ref="§5 C01",
+   text="Seeded sampling of well-formed chains (boundary counts/lengths, segwit, extreme field values, 8 coins, --verify on/off) rendered by an independent serialiser+renderer and compared byte for byte with the four CSV files the real program writes, each run under swarm-selected benign I/O and schedule perturbation (short reads/writes, EINTR, writer capacity 1B..4MB forcing mid-run flushes, 1..64 workers, completion-order delays). What simulation adds over input generation is only environment independence; field fidelity rests on sampling against a hand-written reference.",
+   note="Trusted: the hand-written serialiser/renderer (checked against 5 real genesis blocks), bitcoin_hashes SHA-256. Address column excluded (C05/C06). Sampling, no proof.",
+   tech="deterministic simulation, fault-free/benign configuration: seeded generation + differential comparison with an executable reference model under planned short I/O and worker-count/delay perturbation"),
+ "C03": dict(cat="exploration", ref="§5 C03",
+   text="One logical chain is stored under 4-12 generated physical layouts per scenario (permutations across up to 300 files, file numbers up to 2^64-1, name padding, garbage, unindexed foreign blocks, sparse >4GiB offsets, extra index keys and directory entries) and every layout is run under injected read chunking so seeks land inside and outside the buffer; outputs must be identical across layouts and equal to the reference model.",
+   note="Trusted: world builder writes the LevelDB index with the same rusty-leveldb crate that reads it (format compatibility with Bitcoin Core's files is assumed); symlinked blk files are not generated.",
+   tech="deterministic simulation: layout x seek-order x short-read (effective buffer size) exploration, metamorphic equality across layouts + reference model"),
+ "C11": dict(cat="exploration", ref="§5 C11",
+   text="Twin data directories (plaintext / XOR-obfuscated with keys of length 1..64 incl. all-zero) over the C03 layout generator; read chunk sizes are injected relative to the key period (0,+1,-1 mod period, below the period) so refill boundaries fall at every key phase, with backward/forward seeks, >32KiB blocks and >4GiB offsets. All five callbacks must give identical results for both twins and match the reference model.",
+   note="Empty xor.dat is outside the statement and not generated. Same trusted base as C03.",
+   tech="deterministic simulation: injected short reads at chosen key phases x seek orders, metamorphic twin comparison + reference model"),
+ "C12": dict(cat="exploration", ref="§5 C12",
+   text="Seeded chains on namecoin/dogecoin mixing versions below/at/above the activation version with generated AuxPoW sections (legacy/segwit parent coinbase, branch lengths 0..253, any masks) and the six other coins as negative control with the same versions; all five callbacks compared with the reference model, --verify on half the runs, under read chunking (sections straddle refills), layouts and worker counts.",
+   note="Input-universal property: deciding power is seeded sampling against a hand-written serialiser; simulation contributes environment independence only.",
+   tech="deterministic simulation, benign configuration: seeded generation + reference model under injected short reads / layouts / worker counts"),
 }
 PENDING_REASON = "check not built yet in this revision (claimed in DESIGN.md; will move to checks when its oracle is registered)"
 ALL = ["C%02d" % i for i in range(1, 18)]
